@@ -1,6 +1,8 @@
 (** C02 generated obligation: every segment (case / label) of the opcode switch of sexp_apply, as translated from
     the tree under check (Gen/C02_VmTop.v), is accepted by the checker of VmTop.v: wherever a call that may allocate
-    is reached, the local stack top is at or below the top published in the context. *)
+    is reached, the local stack top is at or below the top published in the context (no lost root) and the published
+    top is at or below the end of the slots written under the frame protocol (no stale root); and every exit of
+    every opcode re-establishes the condition every opcode starts from. *)
 From Coq Require Import ZArith List String Bool.
 From ChibiV Require Import C02.VmTop Gen.C02_VmTop.
 Import ListNotations.
@@ -8,18 +10,41 @@ Import ListNotations.
 Lemma vm_alloc_ops_publish_top : forallb seg_ok vm_segments = true.
 Proof. vm_compute. reflexivity. Qed.
 
-(** the table is not trivial: it has the allocating opcodes in it *)
-Fixpoint calls_in (fuel : nat) (l : list item) : nat :=
+(** ... hence, by the soundness theorem of the checker: in the concrete semantics of the item language, every
+    opcode of the table, started with every slot below its local top and below the published top written, never
+    reaches an allocating call with the local top, or a slot into which it has stored a heap value, above the
+    published top, or with the published top above the written end, and ends (break / goto / return / fall-through) in a configuration from which the next opcode
+    can start: the condition is an invariant of the interpreter loop *)
+Theorem vm_opcodes_scan_exactly_written_prefix : forall name items c o,
+  In (name, items) vm_segments -> entry c -> cf c = None -> execs items c o ->
+  match o with OBad => False | OFall c' | OBreak c' | OStop c' => entry c' end.
+Proof.
+  intros name items c o Hin Hc Hf He.
+  pose proof (proj1 (forallb_forall seg_ok vm_segments) vm_alloc_ops_publish_top _ Hin) as Hs.
+  exact (seg_ok_sound (name, items) c o Hs Hc Hf He).
+Qed.
+
+(** the table is not trivial: it has the allocating opcodes in it, and the stack stores *)
+Fixpoint count_in (p : item -> bool) (fuel : nat) (l : list item) : nat :=
   match fuel with
   | O => 0%nat
-  | S f => fold_right (fun it acc => match it with
-                                     | ICall _ => S acc
-                                     | IIf a b => (calls_in f a + calls_in f b + acc)%nat
-                                     | ILoop b => (calls_in f b + acc)%nat
-                                     | _ => acc
-                                     end) 0%nat l
+  | S f => fold_right (fun it acc => ((if p it then 1 else 0) + match it with
+                                     | IIf a b => (count_in p f a + count_in p f b)
+                                     | ILoop b | IBlock b => count_in p f b
+                                     | _ => 0
+                                     end + acc)%nat) 0%nat l
   end.
 
+Definition is_call (it : item) : bool := match it with ICall _ => true | _ => false end.
+Definition is_store (it : item) : bool := match it with IStore _ _ => true | _ => false end.
+Definition is_pub1 (it : item) : bool := match it with IPub 1 => true | _ => false end.
+
 Lemma vm_table_nontrivial :
-  (50 <=? List.length (filter (fun e => Nat.ltb 0 (calls_in 40 (snd e))) vm_segments))%nat = true.
+  (50 <=? List.length (filter (fun e => Nat.ltb 0 (count_in is_call 40 (snd e))) vm_segments))%nat = true.
+Proof. vm_compute. reflexivity. Qed.
+
+(** the error-raising shape (store the irritants, publish top+1, allocate the exception) is present in at least
+    30 segments: the stale-root side of the check is exercised by the real table *)
+Lemma vm_table_has_raise_shape :
+  (30 <=? List.length (filter (fun e => Nat.ltb 0 (count_in is_pub1 40 (snd e)) && Nat.ltb 0 (count_in is_store 40 (snd e))) vm_segments))%nat = true.
 Proof. vm_compute. reflexivity. Qed.
